@@ -391,9 +391,16 @@ def authz(case, res):
                          cell=cell)
             # (3a) listing across projects
             if name.endswith(':list'):
+                # (a project_id filter must look like a uuid to get past
+                # the API's type check)
+                other = 'bbbbbbbb-bbbb-4bbb-8bbb-bbbbbbbbbbbb'
                 for extra in ({'all_projects': 'true'},
-                              {'project_id': 'pB'}):
+                              {'project_id': other},
+                              {'project_id': other, 'fields': 'id'}):
                     fx, fxb = _fresh(R)
+                    fxo = fixtures.make(other, tag='oth')
+                    fxb = dict(fxb)
+                    fxb.update(('oth_' + k, v) for k, v in fxo.items())
                     # an operator who lets members list must still not
                     # open the other projects
                     R.set_rules({t['rule']: '@'})
@@ -401,9 +408,9 @@ def authz(case, res):
                     res['monitor_evaluations']['enforce-first'] += 1
                     rules = [e['rule'] for e in o3['events']
                              if e['kind'] == 'ENFORCE']
-                    foreign = 'pB' in json.dumps(o3['json'] or {}) and \
-                        any(fxb[k]['id'] in (o3['body'] or '')
-                            for k in fxb if isinstance(fxb[k], dict))
+                    foreign = any(fxb[k]['id'] in (o3['body'] or '')
+                                  for k in fxb if isinstance(fxb[k], dict)
+                                  and fxb[k].get('id'))
                     if o3['status'] == 200 and foreign and not any(
                             r.endswith(':all_projects') for r in rules):
                         viol('enforce-first', 'cross-project-list-'
